@@ -282,7 +282,7 @@ MANIFEST = {
     "category": "other",
     "text": "Static decision of the frame-discipline clause of C04: in getBH_level2 pixel observers are typed as sensor-orientation applied to local "
             "pixel offsets plus sensor position (a global point) and the field is rotated back with the inverse sensor orientation on the static and "
-            "the per-path branch alike; the handedness branch flips x only. Slice offsets, the unrotated/static predicates and pixel_agg are not decided. Also decided: the fast-path predicates quantify over the whole orientation path, the left-handed flip precedes pixel aggregation and is reached for every sensor, aggregation is unconditional in the block size, constant path indices occur only under a staticness guard, and no frame change depends on `field`. Round 3: the aggregator is looked up under exactly the given NumPy name (F11) and the handedness setter stores what its membership test admitted, with every consumer literal inside the admitted set (F12). Rounds 4-5: lossy/tolerance predicates anywhere in the fast-path tests (F5), the flip loop runs over all sensors (F7), observer collections are flattened in sensors_all order (F13), per-sensor bookkeeping by index (F14), the aggregator is applied once (F15), observers are gathered in one pass (F16).",
+            "the per-path branch alike; the handedness branch flips x only. Slice offsets, the unrotated/static predicates and pixel_agg are not decided. Also decided: the fast-path predicates quantify over the whole orientation path, the left-handed flip precedes pixel aggregation and is reached for every sensor, aggregation is unconditional in the block size, constant path indices occur only under a staticness guard, and no frame change depends on `field`. Round 3: the aggregator is looked up under exactly the given NumPy name (F11) and the handedness setter stores what its membership test admitted, with every consumer literal inside the admitted set (F12). Rounds 4-5: lossy/tolerance predicates anywhere in the fast-path tests (F5), the flip loop runs over all sensors (F7), observer collections are flattened in sensors_all order (F13), per-sensor bookkeeping by index (F14), the aggregator is applied once (F15), observers are gathered in one pass (F16). Round 6: every reshape / ravel of the level-2 plumbing is C order (F17), a grouping of sensors by pixel shape records the positions of its members (F18), observers are gathered in one pass (F16).",
     "design_ref": "DESIGN.md §3 C04",
     "note": "Trusted: FRAME interpreter (tolerant; every `.apply` site must be judged), type declarations, boundary type getBH_level1 -> Vec[G].",
     "technique": "static analysis: abstract interpretation with a coordinate-frame type lattice + def-use of the handedness branch",
